@@ -515,7 +515,8 @@ fn record(
     if !o.producer_refused && o.producer_panic.is_none() {
         st.transmissions += 1;
     }
-    let any_fired = o.fired.iter().any(|f| *f);
+    // a fabricated input (no producer at all) is the medium's fault at density 1
+    let any_fired = o.fired.iter().any(|f| *f) || o.producer_kind == 2;
     if any_fired {
         st.runs_with_fault_fired += 1;
     } else {
